@@ -176,7 +176,10 @@ def validate(ctx, events, shards=14):
         else:
             slim.append(e)
     n = len(slim)
-    shards = max(1, min(shards, len(resets)))
+    workers = max(1, min(shards, len(resets)))
+    # thorough: many more pieces than workers, so that one expensive piece (wide numbers, long
+    # scripts) does not leave the other workers idle
+    shards = max(1, min(shards * (6 if ctx.tier == "thorough" and n > 20000 else 1), len(resets)))
     cuts = [0]
     for k in range(1, shards):
         c = (n * k) // shards
@@ -189,7 +192,7 @@ def validate(ctx, events, shards=14):
 
     def one(j):
         a, b = cuts[j], cuts[j + 1]
-        path = os.path.join(ctx.tmp, "vmshard-%d.ndjson" % j)
+        path = os.path.join(ctx.tmp, "vmshard-%d-%d.ndjson" % (len(ctx.cov["tlc_runs"]), j))
         vf.write_ndjson(path, slim[a:b])
         res = ctx.validate_trace("Trace_VM.tla", "Trace_VM.cfg", path, b - a, timeout=2400)
         os.unlink(path)
@@ -201,7 +204,7 @@ def validate(ctx, events, shards=14):
             rej.append((a + o["ref"] - 1, dict(cls="hash", kind=o["kind"])))
         unm = sum(1 for o in res["emitted"] if o.get("k") == "unmodelled")
         return rej, len(obs), unm
-    with ThreadPoolExecutor(max_workers=len(cuts) - 1) as ex:
+    with ThreadPoolExecutor(max_workers=workers) as ex:
         parts = list(ex.map(one, range(len(cuts) - 1)))
     rejects = sorted((x for p in parts for x in p[0]), key=lambda r: r[0])
     return rejects, dict(hash_obligations=sum(p[1] for p in parts), unmodelled_traces=sum(p[2] for p in parts))
